@@ -133,6 +133,27 @@ reg("C09", "model_checking",
     "Depth 3 (quick) / 4 (thorough); quantities are constants and are compared at value level "
     "(sympy may express one quantity through another of the same dimension).", "DESIGN.md 3/C09")
 
+reg("C10", "exploration",
+    "exhaustive enumeration of operand length combinations and coordinate-system combinations "
+    "with generic symbolic components, exact polynomial comparison with a tuple reference",
+    "All 16 / 64 / 256 length combinations (0..3) of 2 / 3 / 4 operands are run through the real "
+    "functions; every result is compared with the tuple reference and every identity named in the "
+    "property is decided by exact normal form, which settles it for all component values; the "
+    "refusal matrix covers 7 binary functions x 36 ordered pairs of system instances.",
+    "Identities are polynomial (rational for projection / unit vectors); sympy expand / together "
+    "are trusted.", "DESIGN.md 3/C10")
+
+reg("C11", "exploration",
+    "enumeration of lattice points x component patterns x both directions of both system pairs, "
+    "compared with an own Cartesian embedding at 40 digits",
+    "Vectors are re-expressed in both directions and round-tripped; dot product, magnitude and "
+    "scaling in the curvilinear system are compared with the Cartesian values of the re-expressed "
+    "operands; 11 scalar fields are re-expressed both ways and evaluated at corresponding points; "
+    "direct cylindrical-spherical conversion and wrong point kinds must be refused.",
+    "Finite lattice away from singularities plus one generic-symbol round trip per pair; the "
+    "transformation entries are elementary functions, each exercised by several lattice points.",
+    "DESIGN.md 3/C11")
+
 
 def build() -> dict:
     props = [json.loads(l)["id"] for l in open(os.path.join(ROOT, "properties.jsonl"))]
